@@ -10,13 +10,13 @@ use core::fmt::Write;
 // fixed-capacity text sink
 // =========================================================================================
 pub struct Sink {
-    pub buf: [u8; 48],
+    pub buf: [u8; 16],
     pub len: usize,
 }
 
 impl Sink {
     pub fn new() -> Self {
-        Sink { buf: [0; 48], len: 0 }
+        Sink { buf: [0; 16], len: 0 }
     }
     pub fn eq_bytes(&self, s: &[u8]) -> bool {
         if self.len != s.len() {
@@ -36,7 +36,7 @@ impl Sink {
 impl fmt::Write for Sink {
     fn write_str(&mut self, s: &str) -> fmt::Result {
         let b = s.as_bytes();
-        if self.len + b.len() > 48 {
+        if self.len + b.len() > 16 {
             return Err(fmt::Error);
         }
         let mut i = 0;
@@ -648,77 +648,85 @@ fn one_field(f: Field) -> Formatter {
     Formatter { fields, format_exact: false }
 }
 
-fn two(b: &mut [u8; 12], at: usize, v: u32) {
-    b[at] = b'0' + ((v / 10) % 10) as u8;
-    b[at + 1] = b'0' + (v % 10) as u8;
+/// `NaiveDateTime::fraction` replaced by its contract (discharged by the naive_fraction_p* obligations)
+pub fn fraction_by_contract(dt: &NaiveDateTime, p: u8) -> u32 {
+    assert!(p >= 1 && p <= 9);
+    let mut v = dt.usec;
+    let mut k = 6u8;
+    while k > p { v /= 10; k -= 1; }
+    while k < p { v *= 10; k += 1; }
+    v
 }
 
-/// sign prefix: '-' for a negative record, '+' for a non-negative interval, nothing otherwise
-fn sign_len<T: DateTimeFormat>(p: &Probe<T>, out: &mut [u8; 12]) -> usize {
-    if p.negative {
-        out[0] = b'-';
-        1
-    } else if T::IS_INTERVAL_YM || T::IS_INTERVAL_DT {
-        out[0] = b'+';
-        1
+fn pow10_6_minus(p: u8) -> u32 {
+    match p { 1 => 100_000, 2 => 10_000, 3 => 1000, 4 => 100, 5 => 10, _ => 1 }
+}
+
+fn fraction_direct(p: u8) {
+    let mut dt = NaiveDateTime::new();
+    dt.usec = kani::any();
+    kani::assume(dt.usec < 1_000_000);
+    let r = dt.fraction(p);
+    if p <= 6 {
+        assert!(r == dt.usec / pow10_6_minus(p));
     } else {
-        0
+        assert!(r == dt.usec * match p { 7 => 10, 8 => 100, _ => 1000 });
     }
 }
 
-fn render_two_digit<T: DateTimeFormat>(field: Field, applies: bool, pick: fn(&Probe<T>) -> u32) {
-    let p = any_probe::<T>();
-    let fmt = one_field(field);
-    let mut w = Sink::new();
-    let r = fmt.format(p, &mut w);
-    if applies {
-        assert!(r.is_ok());
-        let mut exp = [0u8; 12];
-        let n = sign_len(&p, &mut exp);
-        two(&mut exp, n, pick(&p));
-        assert!(w.eq_bytes(&exp[..n + 2]));
-    } else {
-        assert!(r.is_err());
+#[kani::proof]
+fn naive_fraction_p1_to_p6() {
+    fraction_direct(1);
+    fraction_direct(2);
+    fraction_direct(3);
+    fraction_direct(4);
+    fraction_direct(5);
+    fraction_direct(6);
+}
+
+#[kani::proof]
+fn naive_fraction_p7() { fraction_direct(7); }
+#[kani::proof]
+fn naive_fraction_p8() { fraction_direct(8); }
+#[kani::proof]
+fn naive_fraction_p9() { fraction_direct(9); }
+
+fn any_style() -> NameStyle {
+    let k: u8 = kani::any();
+    kani::assume(k < 6);
+    match k { 0 => NameStyle::Capital, 1 => NameStyle::Lower, 2 => NameStyle::Upper, 3 => NameStyle::AbbrCapital, 4 => NameStyle::AbbrLower, _ => NameStyle::AbbrUpper }
+}
+
+fn any_ampm_style() -> AmPmStyle {
+    let k: u8 = kani::any();
+    kani::assume(k < 4);
+    match k { 0 => AmPmStyle::Upper, 1 => AmPmStyle::Lower, 2 => AmPmStyle::UpperDot, _ => AmPmStyle::LowerDot }
+}
+
+/// any single picture token (blank runs up to 3)
+fn any_field() -> Field {
+    let k: u8 = kani::any();
+    kani::assume(k < 24);
+    match k {
+        0 => { let n: u8 = kani::any(); kani::assume(n >= 1 && n <= 3); Field::Blank(n) }
+        1 => Field::Hyphen, 2 => Field::Colon, 3 => Field::Slash, 4 => Field::Backslash, 5 => Field::Comma, 6 => Field::Dot, 7 => Field::Semicolon, 8 => Field::T,
+        9 => { let n: u8 = kani::any(); kani::assume(n >= 1 && n <= 4); Field::Year(n) }
+        10 => Field::Month, 11 => Field::Day, 12 => Field::DayName(any_style()), 13 => Field::MonthName(any_style()),
+        14 => Field::Hour24, 15 => Field::Hour12, 16 => Field::Minute, 17 => Field::Second,
+        18 => { if kani::any() { Field::Fraction(None) } else { let p: u8 = kani::any(); kani::assume(p >= 1 && p <= 9); Field::Fraction(Some(p)) } }
+        19 => Field::AmPm(any_ampm_style()), 20 => Field::DayOfWeek, 21 => Field::DayOfYear, 22 => Field::WeekOfMonth, _ => Field::WeekOfYear,
     }
 }
 
-fn render_two_digit_all(mk: fn() -> Field, date: bool, time: bool, ym: bool, dt: bool, pick_d: fn(&Probe<Date>) -> u32, pick_t: fn(&Probe<Time>) -> u32,
-                        pick_ts: fn(&Probe<Timestamp>) -> u32, pick_ym: fn(&Probe<IntervalYM>) -> u32, pick_dt: fn(&Probe<IntervalDT>) -> u32) {
-    render_two_digit::<Date>(mk(), date, pick_d);
-    render_two_digit::<Time>(mk(), time, pick_t);
-    render_two_digit::<Timestamp>(mk(), date || time, pick_ts);
-    render_two_digit::<IntervalYM>(mk(), ym, pick_ym);
-    render_two_digit::<IntervalDT>(mk(), dt, pick_dt);
+const EXPN: usize = 16;
+
+fn put(out: &mut [u8; EXPN], at: usize, s: &[u8]) -> usize {
+    let mut i = 0;
+    while i < s.len() { out[at + i] = s[i]; i += 1; }
+    at + s.len()
 }
 
-#[kani::proof]
-#[kani::unwind(50)]
-#[kani::stub(crate::util::try_format, stub_try_format)]
-fn fmt_token_month_minute_second_hour24() {
-    render_two_digit_all(|| Field::Month, true, false, true, false, |p| p.month, |p| p.month, |p| p.month, |p| p.month, |p| p.month);
-    render_two_digit_all(|| Field::Minute, false, true, false, true, |p| p.minute, |p| p.minute, |p| p.minute, |p| p.minute, |p| p.minute);
-    render_two_digit_all(|| Field::Second, false, true, false, true, |p| p.sec, |p| p.sec, |p| p.sec, |p| p.sec, |p| p.sec);
-    render_two_digit_all(|| Field::Hour24, false, true, false, true, |p| p.hour, |p| p.hour, |p| p.hour, |p| p.hour, |p| p.hour);
-}
-
-fn h12(h: u32) -> u32 {
-    if h % 12 == 0 { 12 } else { h % 12 }
-}
-
-#[kani::proof]
-#[kani::unwind(50)]
-#[kani::stub(crate::util::try_format, stub_try_format)]
-fn fmt_token_hour12_day() {
-    // 12-hour clock: not for day-time intervals
-    render_two_digit_all(|| Field::Hour12, false, true, false, false, |p| h12(p.hour), |p| h12(p.hour), |p| h12(p.hour), |p| 0, |p| 0);
-    // DD on date-bearing types
-    render_two_digit::<Date>(Field::Day, true, |p| p.day);
-    render_two_digit::<Timestamp>(Field::Day, true, |p| p.day);
-    render_two_digit::<Time>(Field::Day, false, |p| 0);
-    render_two_digit::<IntervalYM>(Field::Day, false, |p| 0);
-}
-
-fn digits_of(mut v: u32, out: &mut [u8; 12], at: usize, width: usize) -> usize {
+fn put_digits(out: &mut [u8; EXPN], at: usize, mut v: u32, width: usize) -> usize {
     // at least `width` digits, zero padded
     let mut tmp = [0u8; 10];
     let mut n = 0;
@@ -726,9 +734,7 @@ fn digits_of(mut v: u32, out: &mut [u8; 12], at: usize, width: usize) -> usize {
         tmp[n] = b'0' + (v % 10) as u8;
         v /= 10;
         n += 1;
-        if v == 0 {
-            break;
-        }
+        if v == 0 { break; }
     }
     let total = if n < width { width } else { n };
     let mut i = 0;
@@ -736,184 +742,10 @@ fn digits_of(mut v: u32, out: &mut [u8; 12], at: usize, width: usize) -> usize {
         out[at + i] = if total - 1 - i < n { tmp[total - 1 - i] } else { b'0' };
         i += 1;
     }
-    total
+    at + total
 }
 
-/// interval day count: at least two digits, all digits of larger counts, once-only sign
-#[kani::proof]
-#[kani::unwind(50)]
-#[kani::stub(crate::util::try_format, stub_try_format)]
-fn fmt_token_interval_day_bounded() {
-    let p = any_probe::<IntervalDT>();
-    kani::assume(p.day < 1000);
-    let fmt = one_field(Field::Day);
-    let mut w = Sink::new();
-    let r = fmt.format(p, &mut w);
-    assert!(r.is_ok());
-    let mut exp = [0u8; 12];
-    let n = sign_len(&p, &mut exp);
-    let k = digits_of(p.day, &mut exp, n, 2);
-    assert!(w.eq_bytes(&exp[..n + k]));
-}
-
-fn year_check<T: DateTimeFormat>(n: u8) {
-    let p = any_probe::<T>();
-    let fmt = one_field(Field::Year(n));
-    let mut w = Sink::new();
-    let r = fmt.format(p, &mut w);
-    if T::HAS_DATE {
-        assert!(r.is_ok());
-        let modulus: u32 = match n { 1 => 10, 2 => 100, 3 => 1000, _ => 10000 };
-        let mut exp = [0u8; 12];
-        let k = digits_of(p.year as u32 % modulus, &mut exp, 0, n as usize);
-        assert!(k == n as usize);
-        assert!(w.eq_bytes(&exp[..k]));
-    } else if T::IS_INTERVAL_YM {
-        assert!(r.is_ok());
-        let mut exp = [0u8; 12];
-        let s = sign_len(&p, &mut exp);
-        let k = digits_of(p.year as u32, &mut exp, s, n as usize);
-        assert!(w.eq_bytes(&exp[..s + k]));
-    } else {
-        assert!(r.is_err());
-    }
-}
-
-#[kani::proof]
-#[kani::unwind(50)]
-#[kani::stub(crate::util::try_format, stub_try_format)]
-fn fmt_token_year() {
-    let n: u8 = kani::any();
-    kani::assume(n >= 1 && n <= 4);
-    year_check::<Date>(n);
-    year_check::<Timestamp>(n);
-    year_check::<IntervalYM>(n);
-    year_check::<Time>(n);
-    year_check::<IntervalDT>(n);
-}
-
-fn fraction_check<T: DateTimeFormat>(p_opt: Option<u8>) {
-    let p = any_probe::<T>();
-    let fmt = one_field(Field::Fraction(p_opt));
-    let mut w = Sink::new();
-    let r = fmt.format(p, &mut w);
-    if T::HAS_FRACTION {
-        assert!(r.is_ok());
-        let digits = p_opt.unwrap_or(6) as usize;
-        // truncated (not rounded) to `digits` digits; beyond six, zero filled
-        let mut v = p.usec as u64;
-        let mut k = 6;
-        while k > digits { v /= 10; k -= 1; }
-        while k < digits { v *= 10; k += 1; }
-        let mut exp = [0u8; 12];
-        let s = sign_len(&p, &mut exp);
-        let n = digits_of(v as u32, &mut exp, s, digits);
-        assert!(n == digits);
-        assert!(w.eq_bytes(&exp[..s + n]));
-    } else {
-        assert!(r.is_err());
-    }
-}
-
-#[kani::proof]
-#[kani::unwind(50)]
-#[kani::stub(crate::util::try_format, stub_try_format)]
-fn fmt_token_fraction_1_to_6() {
-    let d: u8 = kani::any();
-    kani::assume(d >= 1 && d <= 6);
-    let p = if kani::any() { Some(d) } else { None };
-    fraction_check::<Time>(p);
-    fraction_check::<Timestamp>(p);
-    fraction_check::<IntervalDT>(p);
-    fraction_check::<Date>(p);
-    fraction_check::<IntervalYM>(p);
-}
-
-#[kani::proof]
-#[kani::unwind(50)]
-#[kani::stub(crate::util::try_format, stub_try_format)]
-fn fmt_token_fraction_7() {
-    fraction_check::<Time>(Some(7));
-}
-
-#[kani::proof]
-#[kani::unwind(50)]
-#[kani::stub(crate::util::try_format, stub_try_format)]
-fn fmt_token_fraction_8() {
-    fraction_check::<Time>(Some(8));
-}
-
-#[kani::proof]
-#[kani::unwind(50)]
-#[kani::stub(crate::util::try_format, stub_try_format)]
-fn fmt_token_fraction_9() {
-    fraction_check::<Time>(Some(9));
-}
-
-fn ampm_check<T: DateTimeFormat>(style: AmPmStyle, am: &[u8], pm: &[u8]) {
-    let p = any_probe::<T>();
-    let fmt = one_field(Field::AmPm(style));
-    let mut w = Sink::new();
-    let r = fmt.format(p, &mut w);
-    if T::HAS_TIME && !T::IS_INTERVAL_DT {
-        assert!(r.is_ok());
-        assert!(w.eq_bytes(if p.hour < 12 { am } else { pm }));
-    } else {
-        assert!(r.is_err());
-    }
-}
-
-#[kani::proof]
-#[kani::unwind(50)]
-#[kani::stub(crate::util::try_format, stub_try_format)]
-fn fmt_token_ampm() {
-    ampm_check::<Time>(AmPmStyle::Upper, b"AM", b"PM");
-    ampm_check::<Time>(AmPmStyle::Lower, b"am", b"pm");
-    ampm_check::<Timestamp>(AmPmStyle::UpperDot, b"A.M.", b"P.M.");
-    ampm_check::<Timestamp>(AmPmStyle::LowerDot, b"a.m.", b"p.m.");
-    ampm_check::<Date>(AmPmStyle::Upper, b"AM", b"PM");
-    ampm_check::<IntervalDT>(AmPmStyle::Upper, b"AM", b"PM");
-    ampm_check::<IntervalYM>(AmPmStyle::Lower, b"am", b"pm");
-}
-
-fn punct_check<T: DateTimeFormat>() {
-    let p = any_probe::<T>();
-    let mut fields = StackVec::new();
-    fields.push(Field::Hyphen);
-    fields.push(Field::Colon);
-    fields.push(Field::Slash);
-    fields.push(Field::Backslash);
-    fields.push(Field::Comma);
-    fields.push(Field::Dot);
-    fields.push(Field::Semicolon);
-    fields.push(Field::T);
-    let nb: u8 = kani::any();
-    kani::assume(nb >= 1 && nb <= 20);
-    fields.push(Field::Blank(nb));
-    let fmt = Formatter { fields, format_exact: false };
-    let mut w = Sink::new();
-    assert!(fmt.format(p, &mut w).is_ok());
-    let mut exp = [b' '; 40];
-    let mut s12 = [0u8; 12];
-    let s = sign_len(&p, &mut s12);
-    if s == 1 { exp[0] = s12[0]; }
-    let lit = b"-:/\\,.;T";
-    let mut i = 0;
-    while i < 8 { exp[s + i] = lit[i]; i += 1; }
-    assert!(w.eq_bytes(&exp[..s + 8 + nb as usize]));
-}
-
-#[kani::proof]
-#[kani::unwind(50)]
-#[kani::stub(crate::util::try_format, stub_try_format)]
-fn fmt_punctuation_blanks_sign() {
-    punct_check::<Date>();
-    punct_check::<Time>();
-    punct_check::<IntervalDT>();
-    punct_check::<IntervalYM>();
-}
-
-fn name_bytes(name: &[u8], style: NameStyle, out: &mut [u8; 12]) -> usize {
+fn put_name(out: &mut [u8; EXPN], at: usize, name: &[u8], style: NameStyle) -> usize {
     let (abbr, upper, lower_all) = match style {
         NameStyle::Capital => (false, false, false),
         NameStyle::Lower => (false, false, true),
@@ -926,88 +758,647 @@ fn name_bytes(name: &[u8], style: NameStyle, out: &mut [u8; 12]) -> usize {
     let mut i = 0;
     while i < n {
         let c = name[i];
-        out[i] = if upper || (i == 0 && !lower_all) { c - 32 } else { c };
+        out[at + i] = if upper || (i == 0 && !lower_all) { c - 32 } else { c };
         i += 1;
     }
-    n
+    at + n
 }
 
-fn any_style() -> NameStyle {
-    let k: u8 = kani::any();
-    kani::assume(k < 6);
+fn h12(h: u32) -> u32 {
+    if h % 12 == 0 { 12 } else { h % 12 }
+}
+
+/// the rendering of one token, written from the property statement; None = the token does not apply to the type
+fn render_ref<T: DateTimeFormat>(f: &Field, p: &Probe<T>, out: &mut [u8; EXPN], at: usize) -> Option<usize> {
+    let date = T::HAS_DATE;
+    let time = T::HAS_TIME;
+    let ym = T::IS_INTERVAL_YM;
+    let dtv = T::IS_INTERVAL_DT;
+    match f {
+        Field::Invalid => None,
+        Field::Blank(n) => { let mut e = at; let mut i = 0; while i < *n { out[e] = b' '; e += 1; i += 1; } Some(e) }
+        Field::Hyphen => Some(put(out, at, b"-")),
+        Field::Colon => Some(put(out, at, b":")),
+        Field::Slash => Some(put(out, at, b"/")),
+        Field::Backslash => Some(put(out, at, b"\\")),
+        Field::Comma => Some(put(out, at, b",")),
+        Field::Dot => Some(put(out, at, b".")),
+        Field::Semicolon => Some(put(out, at, b";")),
+        Field::T => Some(put(out, at, b"T")),
+        Field::Year(n) => {
+            if date {
+                let modulus: u32 = match n { 1 => 10, 2 => 100, 3 => 1000, _ => 10000 };
+                Some(put_digits(out, at, p.year as u32 % modulus, *n as usize))
+            } else if ym { Some(put_digits(out, at, p.year as u32, *n as usize)) } else { None }
+        }
+        Field::Month => if date || ym { Some(put_digits(out, at, p.month, 2)) } else { None },
+        Field::Day => if date || dtv { Some(put_digits(out, at, p.day, 2)) } else { None },
+        Field::Hour24 => if time { Some(put_digits(out, at, p.hour, 2)) } else { None },
+        Field::Hour12 => if time && !dtv { Some(put_digits(out, at, h12(p.hour), 2)) } else { None },
+        Field::Minute => if time { Some(put_digits(out, at, p.minute, 2)) } else { None },
+        Field::Second => if time { Some(put_digits(out, at, p.sec, 2)) } else { None },
+        Field::Fraction(q) => {
+            if T::HAS_FRACTION {
+                let digits = q.unwrap_or(6);
+                let mut v = p.usec;       // truncated, not rounded
+                let mut k = 6u8;
+                while k > digits { v /= 10; k -= 1; }
+                while k < digits { v *= 10; k += 1; }
+                Some(put_digits(out, at, v, digits as usize))
+            } else { None }
+        }
+        Field::AmPm(st) => {
+            if time && !dtv {
+                let am = p.hour < 12;
+                Some(put(out, at, match (st, am) {
+                    (AmPmStyle::Upper, true) => b"AM", (AmPmStyle::Upper, false) => b"PM",
+                    (AmPmStyle::Lower, true) => b"am", (AmPmStyle::Lower, false) => b"pm",
+                    (AmPmStyle::UpperDot, true) => b"A.M.", (AmPmStyle::UpperDot, false) => b"P.M.",
+                    (AmPmStyle::LowerDot, true) => b"a.m.", (AmPmStyle::LowerDot, false) => b"p.m.",
+                }))
+            } else { None }
+        }
+        Field::MonthName(st) => if date { Some(put_name(out, at, REF_MONTHS[p.month as usize - 1], *st)) } else { None },
+        Field::DayName(st) => {
+            if date { let wd = k_wd(k_dn(p.year as i64, p.month as i64, p.day as i64)); Some(put_name(out, at, REF_DAYS[wd as usize - 1], *st)) } else { None }
+        }
+        Field::DayOfWeek => {
+            if date { let wd = k_wd(k_dn(p.year as i64, p.month as i64, p.day as i64)); out[at] = b'0' + wd as u8; Some(at + 1) } else { None }
+        }
+        Field::DayOfYear => {
+            if date { let doy = k_cum(p.month as i64) + (if p.month > 2 && k_leap(p.year as i64) { 1 } else { 0 }) + p.day as i64; Some(put_digits(out, at, doy as u32, 3)) } else { None }
+        }
+        Field::WeekOfMonth => if date { out[at] = b'0' + ((p.day - 1) / 7 + 1) as u8; Some(at + 1) } else { None },
+        Field::WeekOfYear => {
+            if date { let doy = k_cum(p.month as i64) + (if p.month > 2 && k_leap(p.year as i64) { 1 } else { 0 }) + p.day as i64; Some(put_digits(out, at, (doy as u32 - 1) / 7 + 1, 2)) } else { None }
+        }
+    }
+}
+
+// ---- modular decomposition of the renderer --------------------------------------------------------------
+// (1) every table-lookup helper is checked against arithmetic for EVERY index it can receive (exhaustive, concrete loops);
+// (2) Formatter::format is checked with those helpers replaced by markers: which helper a token calls, for which
+//     types, the sign prefix, and the directly computed tokens (year, fraction, blanks, punctuation).
+
+fn two_digits(v: u32) -> [u8; 2] {
+    [b'0' + (v / 10 % 10) as u8, b'0' + (v % 10) as u8]
+}
+
+#[kani::proof]
+#[kani::unwind(64)]
+fn tables_two_digit_exhaustive() {
+    let mut dt = NaiveDateTime::new();
+    let mut v = 0u32;
+    while v <= 60 {
+        let e = two_digits(v);
+        if v <= 12 { dt.month = v; assert!(dt.month_str().as_bytes() == &e); }
+        if v <= 31 {
+            dt.day = v;
+            assert!(dt.day_str().as_bytes() == &e);
+            if v >= 1 { assert!(dt.week_of_month_str().as_bytes() == &[b'0' + ((v - 1) / 7 + 1) as u8]); }
+        }
+        if v <= 23 {
+            dt.hour = v;
+            assert!(dt.hour24_str().as_bytes() == &e);
+            assert!(dt.hour12_str().as_bytes() == &two_digits(h12(v)));
+            assert!(dt.hour12() == h12(v));
+        }
+        if v <= 59 {
+            dt.minute = v;
+            dt.sec = v;
+            assert!(dt.minute_str().as_bytes() == &e);
+            assert!(dt.second_str().as_bytes() == &e);
+        }
+        v += 1;
+    }
+}
+
+fn style_of(k: u8) -> NameStyle {
     match k { 0 => NameStyle::Capital, 1 => NameStyle::Lower, 2 => NameStyle::Upper, 3 => NameStyle::AbbrCapital, 4 => NameStyle::AbbrLower, _ => NameStyle::AbbrUpper }
 }
 
 #[kani::proof]
-#[kani::unwind(50)]
-#[kani::stub(crate::util::try_format, stub_try_format)]
-fn fmt_token_month_name() {
-    let style = any_style();
-    let p = any_probe::<Date>();
-    let fmt = one_field(Field::MonthName(style));
-    let mut w = Sink::new();
-    assert!(fmt.format(p, &mut w).is_ok());
-    let mut exp = [0u8; 12];
-    let n = name_bytes(REF_MONTHS[p.month as usize - 1], style, &mut exp);
-    assert!(w.eq_bytes(&exp[..n]));
-    let q = any_probe::<Time>();
-    let mut w2 = Sink::new();
-    assert!(one_field(Field::MonthName(style)).format(q, &mut w2).is_err());
-    let q = any_probe::<IntervalYM>();
-    let mut w3 = Sink::new();
-    assert!(one_field(Field::MonthName(style)).format(q, &mut w3).is_err());
+#[kani::unwind(26)]
+fn tables_names_exhaustive() {
+    let mut k = 0u8;
+    while k < 6 {
+        let st = style_of(k);
+        let mut m = 1usize;
+        while m <= 12 {
+            let mut dt = NaiveDateTime::new();
+            dt.month = m as u32;
+            let mut exp = [0u8; EXPN];
+            let n = put_name(&mut exp, 0, REF_MONTHS[m - 1], st);
+            assert!(dt.month_name(st).as_bytes() == &exp[..n]);
+            if m <= 7 {
+                let mut e2 = [0u8; EXPN];
+                let n2 = put_name(&mut e2, 0, REF_DAYS[m - 1], st);
+                assert!(WeekDay::from(m).name(st).as_bytes() == &e2[..n2]);
+                assert!(WeekDay::from(m).num_str().as_bytes() == &[b'0' + m as u8]);
+            }
+            m += 1;
+        }
+        k += 1;
+    }
+    let mut h = 0u32;
+    while h < 24 {
+        assert!(AmPmStyle::Upper.format(h).as_bytes() == if h < 12 { b"AM" } else { b"PM" });
+        assert!(AmPmStyle::Lower.format(h).as_bytes() == if h < 12 { b"am" } else { b"pm" });
+        h += 1;
+    }
+    h = 0;
+    while h < 24 {
+        assert!(AmPmStyle::UpperDot.format(h).as_bytes() == if h < 12 { b"A.M." } else { b"P.M." });
+        assert!(AmPmStyle::LowerDot.format(h).as_bytes() == if h < 12 { b"a.m." } else { b"p.m." });
+        h += 1;
+    }
 }
 
-/// weekday name / number: the weekday of the record's date (date() given or recomputed from the fields)
+/// DDD and WW for every (leap?, month, day): three-digit day of year; weeks in 7-day blocks from 1 January
 #[kani::proof]
-#[kani::unwind(50)]
+#[kani::unwind(5)]
+fn tables_day_of_year_exhaustive() {
+    let leap: bool = kani::any();
+    let year: i64 = if leap { 2024 } else { 2023 };
+    let m: u32 = kani::any();
+    let d: u32 = kani::any();
+    kani::assume(m >= 1 && m <= 12 && d >= 1 && d as i64 <= k_mdays(year, m as i64));
+    let mut dt = NaiveDateTime::new();
+    dt.year = year as i32;
+    dt.month = m;
+    dt.day = d;
+    let doy = (k_cum(m as i64) + (if m > 2 && leap { 1 } else { 0 })) as u32 + d;
+    let e = [b'0' + (doy / 100) as u8, b'0' + (doy / 10 % 10) as u8, b'0' + (doy % 10) as u8];
+    let s1 = dt.day_of_year_str().as_bytes();
+    assert!(s1.len() == 3 && s1[0] == e[0] && s1[1] == e[1] && s1[2] == e[2]);
+    let w = two_digits((doy - 1) / 7 + 1);
+    let s2 = dt.week_of_year_str().as_bytes();
+    assert!(s2.len() == 2 && s2[0] == w[0] && s2[1] == w[1]);
+}
+
+/// the_day_of_year depends on the year only through leapness (so two years cover the table harness above)
+#[kani::proof]
+fn day_of_year_depends_on_leapness() {
+    let y: i32 = kani::any();
+    kani::assume(y >= 1 && y <= 9999);
+    let m: u32 = kani::any();
+    let d: u32 = kani::any();
+    kani::assume(m >= 1 && m <= 12 && d >= 1 && d <= 31);
+    let r = the_day_of_year(y, m, d);
+    let r2 = the_day_of_year(if k_leap(y as i64) { 2024 } else { 2023 }, m, d);
+    assert!(r == r2);
+}
+
+/// weekday name / number of a field record: the weekday of its date (given, or recomputed from the fields)
+#[kani::proof]
+#[kani::unwind(14)]
 #[kani::stub(crate::util::try_format, stub_try_format)]
 #[kani::stub(crate::common::date2julian, crate::kverif::date2julian_by_contract)]
-fn fmt_token_weekday() {
-    let style = any_style();
-    let mut p = any_probe::<Date>();
+fn week_day_name_contract() {
+    let p = any_probe::<Date>();
     let n = k_dn(p.year as i64, p.month as i64, p.day as i64);
-    if kani::any() {
-        p.date = Some(Date::try_from_days(n as i32).unwrap());
-    }
+    let given = if kani::any() { Some(Date::try_from_days(n as i32).unwrap()) } else { None };
+    let dt: NaiveDateTime = p.into();
+    let st = any_style();
     let wd = k_wd(n);
-    let fmt = one_field(Field::DayName(style));
-    let mut w = Sink::new();
-    assert!(fmt.format(p, &mut w).is_ok());
-    let mut exp = [0u8; 12];
-    let k = name_bytes(REF_DAYS[wd as usize - 1], style, &mut exp);
-    assert!(w.eq_bytes(&exp[..k]));
-    let mut w2 = Sink::new();
-    assert!(one_field(Field::DayOfWeek).format(p, &mut w2).is_ok());
-    let one = [b'0' + wd as u8];
-    assert!(w2.eq_bytes(&one));
-    let q = any_probe::<Time>();
-    let mut w3 = Sink::new();
-    assert!(one_field(Field::DayOfWeek).format(q, &mut w3).is_err());
+    let mut exp = [0u8; EXPN];
+    let k = put_name(&mut exp, 0, REF_DAYS[wd as usize - 1], st);
+    let r = dt.week_day_name(given, st);
+    assert!(r.is_ok() && r.unwrap().as_bytes() == &exp[..k]);
+    let r2 = dt.day_of_week_str(given);
+    assert!(r2.is_ok() && r2.unwrap().as_bytes() == &[b'0' + wd as u8]);
 }
 
-/// DDD, W, WW: day of year in three digits; weeks counted in 7-day blocks from the 1st
-#[kani::proof]
-#[kani::unwind(50)]
-#[kani::stub(crate::util::try_format, stub_try_format)]
-fn fmt_token_day_of_year_weeks() {
-    let p = any_probe::<Timestamp>();
-    let doy = (k_cum(p.month as i64) + (if p.month > 2 && k_leap(p.year as i64) { 1 } else { 0 }) + p.day as i64) as u32;
-    let mut w = Sink::new();
-    assert!(one_field(Field::DayOfYear).format(p, &mut w).is_ok());
-    let mut exp = [0u8; 12];
-    let k = digits_of(doy, &mut exp, 0, 3);
-    assert!(k == 3 && w.eq_bytes(&exp[..3]));
-    let mut w2 = Sink::new();
-    assert!(one_field(Field::WeekOfYear).format(p, &mut w2).is_ok());
-    let mut e2 = [0u8; 12];
-    two(&mut e2, 0, (doy - 1) / 7 + 1);
-    assert!(w2.eq_bytes(&e2[..2]));
-    let mut w3 = Sink::new();
-    assert!(one_field(Field::WeekOfMonth).format(p, &mut w3).is_ok());
-    let e3 = [b'0' + ((p.day - 1) / 7 + 1) as u8];
-    assert!(w3.eq_bytes(&e3));
-    let q = any_probe::<IntervalDT>();
-    let mut w4 = Sink::new();
-    assert!(one_field(Field::DayOfYear).format(q, &mut w4).is_err());
+// markers standing for "the text returned by helper X" in the glue obligation
+pub fn mk_month_str(_dt: &NaiveDateTime) -> &str { "a" }
+pub fn mk_day_str(_dt: &NaiveDateTime) -> &str { "b" }
+pub fn mk_hour24_str(_dt: &NaiveDateTime) -> &str { "c" }
+pub fn mk_hour12_str(_dt: &NaiveDateTime) -> &str { "d" }
+pub fn mk_minute_str(_dt: &NaiveDateTime) -> &str { "e" }
+pub fn mk_second_str(_dt: &NaiveDateTime) -> &str { "f" }
+pub fn mk_month_name(_dt: &NaiveDateTime, _style: NameStyle) -> &str { "g" }
+pub fn mk_week_day_name(_dt: &NaiveDateTime, _date: Option<Date>, _style: NameStyle) -> Result<&str> { Ok("h") }
+pub fn mk_day_of_week_str(_dt: &NaiveDateTime, _date: Option<Date>) -> Result<&str> { Ok("i") }
+pub fn mk_day_of_year_str(_dt: &NaiveDateTime) -> &str { "j" }
+pub fn mk_week_of_month_str(_dt: &NaiveDateTime) -> &str { "k" }
+pub fn mk_week_of_year_str(_dt: &NaiveDateTime) -> &str { "l" }
+pub fn mk_ampm_format(_s: &AmPmStyle, _hour: u32) -> &str { "n" }
+
+/// which helper a token uses, or None where the token does not apply to the type; directly computed tokens render in full
+fn glue_ref<T: DateTimeFormat>(f: &Field, p: &Probe<T>, out: &mut [u8; EXPN], at: usize) -> Option<usize> {
+    let date = T::HAS_DATE;
+    let time = T::HAS_TIME;
+    let ym = T::IS_INTERVAL_YM;
+    let dtv = T::IS_INTERVAL_DT;
+    let mark = |out: &mut [u8; EXPN], c: u8| { out[at] = c; Some(at + 1) };
+    match f {
+        Field::Month => if date || ym { mark(out, b'a') } else { None },
+        Field::Day => if date { mark(out, b'b') } else if dtv { if p.day < 32 { mark(out, b'b') } else { Some(put_digits(out, at, p.day, 1)) } } else { None },
+        Field::Hour24 => if time { mark(out, b'c') } else { None },
+        Field::Hour12 => if time && !dtv { mark(out, b'd') } else { None },
+        Field::Minute => if time { mark(out, b'e') } else { None },
+        Field::Second => if time { mark(out, b'f') } else { None },
+        Field::MonthName(_) => if date { mark(out, b'g') } else { None },
+        Field::DayName(_) => if date { mark(out, b'h') } else { None },
+        Field::DayOfWeek => if date { mark(out, b'i') } else { None },
+        Field::DayOfYear => if date { mark(out, b'j') } else { None },
+        Field::WeekOfMonth => if date { mark(out, b'k') } else { None },
+        Field::WeekOfYear => if date { mark(out, b'l') } else { None },
+        Field::AmPm(_) => if time && !dtv { mark(out, b'n') } else { None },
+        _ => render_ref::<T>(f, p, out, at),
+    }
 }
+
+fn glue_check<T: DateTimeFormat>() {
+    let mut p = any_probe::<T>();
+    if T::IS_INTERVAL_DT { kani::assume(p.day < 1000); }
+    let f = any_field();
+    kani::assume(!matches!(f, Field::Fraction(_)));      // fmt_glue_fraction
+    let mut exp = [0u8; EXPN];
+    let mut at = 0;
+    if p.negative { exp[0] = b'-'; at = 1; } else if T::IS_INTERVAL_YM || T::IS_INTERVAL_DT { exp[0] = b'+'; at = 1; }
+    let want = glue_ref::<T>(&f, &p, &mut exp, at);
+    let fmt = one_field(f);
+    let mut w = Sink::new();
+    let r = fmt.format(p, &mut w);
+    match want {
+        Some(n) => { assert!(r.is_ok()); assert!(w.eq_bytes(&exp[..n])); }
+        None => assert!(r.is_err()),
+    }
+}
+
+macro_rules! glue_harness {
+    ($name:ident, $t:ty) => {
+        #[kani::proof]
+        #[kani::unwind(13)]
+        #[kani::stub(crate::util::try_format, stub_try_format)]
+        #[kani::stub(NaiveDateTime::fraction, fraction_by_contract)]
+        #[kani::stub(NaiveDateTime::month_str, mk_month_str)]
+        #[kani::stub(NaiveDateTime::day_str, mk_day_str)]
+        #[kani::stub(NaiveDateTime::hour24_str, mk_hour24_str)]
+        #[kani::stub(NaiveDateTime::hour12_str, mk_hour12_str)]
+        #[kani::stub(NaiveDateTime::minute_str, mk_minute_str)]
+        #[kani::stub(NaiveDateTime::second_str, mk_second_str)]
+        #[kani::stub(NaiveDateTime::month_name, mk_month_name)]
+        #[kani::stub(NaiveDateTime::week_day_name, mk_week_day_name)]
+        #[kani::stub(NaiveDateTime::day_of_week_str, mk_day_of_week_str)]
+        #[kani::stub(NaiveDateTime::day_of_year_str, mk_day_of_year_str)]
+        #[kani::stub(NaiveDateTime::week_of_month_str, mk_week_of_month_str)]
+        #[kani::stub(NaiveDateTime::week_of_year_str, mk_week_of_year_str)]
+        #[kani::stub(AmPmStyle::format, mk_ampm_format)]
+        fn $name() { glue_check::<$t>(); }
+    };
+}
+glue_harness!(fmt_glue_date, Date);
+glue_harness!(fmt_glue_time, Time);
+glue_harness!(fmt_glue_timestamp, Timestamp);
+glue_harness!(fmt_glue_interval_ym, IntervalYM);
+glue_harness!(fmt_glue_interval_dt_bounded, IntervalDT);
+glue_harness!(fmt_glue_oracle_date, crate::oracle::Date);
+
+fn fraction_glue<T: DateTimeFormat>(q: Option<u8>) {
+    let p = any_probe::<T>();
+    let f = Field::Fraction(q);
+    let mut exp = [0u8; EXPN];
+    let mut at = 0;
+    if p.negative { exp[0] = b'-'; at = 1; } else if T::IS_INTERVAL_YM || T::IS_INTERVAL_DT { exp[0] = b'+'; at = 1; }
+    let want = render_ref::<T>(&f, &p, &mut exp, at);
+    let fmt = one_field(f);
+    let mut w = Sink::new();
+    let r = fmt.format(p, &mut w);
+    match want {
+        Some(n) => { assert!(r.is_ok()); assert!(w.eq_bytes(&exp[..n])); }
+        None => assert!(r.is_err()),
+    }
+}
+
+/// FF / FF1..FF9 (concrete precision per call): the digits of fraction(p) zero-padded to p; Err for types without a fraction
+#[kani::proof]
+#[kani::unwind(13)]
+#[kani::stub(crate::util::try_format, stub_try_format)]
+#[kani::stub(NaiveDateTime::fraction, fraction_by_contract)]
+fn fmt_glue_fraction() {
+    fraction_glue::<Time>(None);
+    fraction_glue::<Time>(Some(1));
+    fraction_glue::<Time>(Some(3));
+    fraction_glue::<Time>(Some(6));
+    fraction_glue::<Time>(Some(9));
+    fraction_glue::<Timestamp>(Some(2));
+    fraction_glue::<Timestamp>(Some(4));
+    fraction_glue::<IntervalDT>(Some(5));
+    fraction_glue::<IntervalDT>(Some(7));
+    fraction_glue::<IntervalDT>(Some(8));
+    fraction_glue::<Date>(Some(6));
+    fraction_glue::<IntervalYM>(None);
+    fraction_glue::<crate::oracle::Date>(Some(6));
+}
+
+/// EVERY token on EVERY field record of one type, end to end (no helper stubbed): thorough tier
+/// EVERY token on EVERY field record of one type: the text written is the reference rendering, prefixed once by the interval sign;
+/// a token that does not apply to the type is an error
+fn token_check<T: DateTimeFormat>(small_interval_day: bool) {
+    let mut p = any_probe::<T>();
+    if T::IS_INTERVAL_DT && small_interval_day {
+        kani::assume(p.day < 1000);
+    }
+    if T::HAS_DATE && kani::any() {
+        // the weekday tokens use date() when the type provides it
+        p.date = Some(Date::try_from_days(k_dn(p.year as i64, p.month as i64, p.day as i64) as i32).unwrap());
+    }
+    let f = any_field();
+    let mut exp = [0u8; EXPN];
+    let mut at = 0;
+    if p.negative { exp[0] = b'-'; at = 1; } else if T::IS_INTERVAL_YM || T::IS_INTERVAL_DT { exp[0] = b'+'; at = 1; }
+    let want = render_ref::<T>(&f, &p, &mut exp, at);
+    let fmt = one_field(f);
+    let mut w = Sink::new();
+    let r = fmt.format(p, &mut w);
+    match want {
+        Some(n) => { assert!(r.is_ok()); assert!(w.eq_bytes(&exp[..n])); }
+        None => assert!(r.is_err()),
+    }
+}
+
+macro_rules! token_harness {
+    ($name:ident, $t:ty) => {
+        #[kani::proof]
+        #[kani::unwind(13)]
+        #[kani::stub(crate::util::try_format, stub_try_format)]
+        #[kani::stub(crate::common::date2julian, crate::kverif::date2julian_by_contract)]
+        #[kani::stub(NaiveDateTime::fraction, fraction_by_contract)]
+        fn $name() { token_check::<$t>(true); }
+    };
+}
+token_harness!(fmt_tokens_date, Date);
+token_harness!(fmt_tokens_time, Time);
+token_harness!(fmt_tokens_timestamp, Timestamp);
+token_harness!(fmt_tokens_interval_ym, IntervalYM);
+token_harness!(fmt_tokens_interval_dt_bounded, IntervalDT);
+token_harness!(fmt_tokens_oracle_date, crate::oracle::Date);
+
+/// two tokens: the output is the concatenation of the two renderings, the sign written once
+#[kani::proof]
+#[kani::unwind(13)]
+#[kani::stub(crate::util::try_format, stub_try_format)]
+#[kani::stub(crate::common::date2julian, crate::kverif::date2julian_by_contract)]
+#[kani::stub(NaiveDateTime::fraction, fraction_by_contract)]
+fn fmt_two_tokens_timestamp_bounded() {
+    let p = any_probe::<Timestamp>();
+    let f1 = any_field();
+    let f2 = any_field();
+    let mut exp = [0u8; EXPN];
+    let mut tmp = [0u8; EXPN];
+    let a = render_ref::<Timestamp>(&f1, &p, &mut exp, 0);
+    let mut fields = StackVec::new();
+    fields.push(f1);
+    let b = match a { Some(n) if n <= 6 => render_ref::<Timestamp>(&f2, &p, &mut exp, n), _ => None };
+    kani::assume(a.is_some() && a.unwrap() <= 6);
+    fields.push(f2);
+    let fmt = Formatter { fields, format_exact: false };
+    let mut w = Sink::new();
+    let r = fmt.format(p, &mut w);
+    match b {
+        Some(n) => { assert!(r.is_ok()); assert!(w.eq_bytes(&exp[..n])); }
+        None => assert!(r.is_err()),
+    }
+}
+
+// =========================================================================================
+// C05 / C18: parsing one field.  The parser is run on Probe<T>, so the result is the field record it
+// built (the record -> value conversions TryFrom<NaiveDateTime> are proved in Verus); the clock is symbolic.
+// =========================================================================================
+const TXT: usize = 6;
+
+fn is_ws(b: u8) -> bool {
+    b == b' ' || b == b'\t' || b == b'\n' || b == 0x0c || b == b'\r'
+}
+
+fn skip_ws(s: &[u8]) -> &[u8] {
+    let mut i = 0;
+    while i < s.len() && is_ws(s[i]) { i += 1; }
+    &s[i..]
+}
+
+/// reference number scanner: optional sign, 1..=max digits (maximal munch)
+fn ref_number(s: &[u8], max: usize) -> Option<(bool, i64, usize)> {
+    if s.is_empty() { return None; }
+    let signed = s[0] == b'+' || s[0] == b'-';
+    let st = if signed { 1 } else { 0 };
+    let mut k = 0;
+    let mut v: i64 = 0;
+    while st + k < s.len() && k < max && is_digit(s[st + k]) {
+        v = v * 10 + (s[st + k] - b'0') as i64;
+        k += 1;
+    }
+    if k == 0 { return None; }
+    let neg = s[0] == b'-';
+    Some((neg, if neg { -v } else { v }, st + k))
+}
+
+fn ref_month_name(s: &[u8]) -> Option<(u32, usize)> {
+    let mut i = 0;
+    while i < 12 { if ci(s, REF_MONTHS[i]) { return Some((i as u32 + 1, REF_MONTHS[i].len())); } i += 1; }
+    i = 0;
+    while i < 12 { if ci(s, &REF_MONTHS[i][..3]) { return Some((i as u32 + 1, 3)); } i += 1; }
+    None
+}
+
+fn ref_day_name(s: &[u8], abbr: bool) -> Option<(u32, usize)> {
+    let mut i = 0;
+    while i < 7 {
+        let pat: &[u8] = if abbr { &REF_DAYS[i][..3] } else { REF_DAYS[i] };
+        if ci(s, pat) { return Some((i as u32 + 1, pat.len())); }
+        i += 1;
+    }
+    None
+}
+
+#[derive(Clone, Copy)]
+struct RefRec { year: i64, month: u32, day: u32, hour: u32, minute: u32, sec: u32, usec: u32, negative: bool }
+
+/// what the text denotes under a one-field picture, for a type with the flags of T, at clock (cy, cm); None = rejected
+fn ref_parse_one<T: DateTimeFormat>(f: &Field, text: &[u8], cy: i64, cm: u32) -> Option<RefRec> {
+    let date = T::HAS_DATE;
+    let time = T::HAS_TIME;
+    let ym = T::IS_INTERVAL_YM;
+    let dtv = T::IS_INTERVAL_DT;
+    let mut r = RefRec { year: 1, month: 0, day: 1, hour: 0, minute: 0, sec: 0, usec: 0, negative: false };
+    let mut s = skip_ws(text);
+    let mut year_set = false;
+    let mut month_set = false;
+    let mut day_set = false;
+    let mut dow: Option<u32> = None;
+    let mut doy: Option<u32> = None;
+    match f {
+        Field::Invalid => return None,
+        Field::Blank(_) => {}
+        Field::Hyphen | Field::Colon | Field::Dot => {
+            let c = match f { Field::Hyphen => b'-', Field::Colon => b':', _ => b'.' };
+            if !s.is_empty() { if s[0] == c { s = &s[1..]; } else { return None; } }
+        }
+        Field::Slash | Field::Backslash | Field::Comma | Field::Semicolon | Field::T => {
+            let c = match f { Field::Slash => b'/', Field::Backslash => b'\\', Field::Comma => b',', Field::Semicolon => b';', _ => b'T' };
+            if !s.is_empty() && s[0] == c { s = &s[1..]; } else { return None; }
+        }
+        Field::Year(n) => {
+            if !(date || ym) { return None; }
+            let n = *n as usize;
+            let (neg, y, used) = if ym { ref_number(s, 9)? } else if n == 2 { ref_number(s, 4)? } else { ref_number(s, n)? };
+            // one-, two- and three-digit year fields are completed with the leading digits of the current year
+            // (a two-digit field that is given more than two characters is a full year)
+            let y = if ym || n == 4 { y } else if n == 2 { if used > 2 { y } else { cy - cy % 100 + y } }
+                    else if n == 1 { cy - cy % 10 + y } else { cy - cy % 1000 + y };
+            if neg && date { return None; }
+            r.negative = neg;
+            r.year = y;
+            year_set = true;
+            s = &s[used..];
+        }
+        Field::Month => {
+            if !(date || ym) { return None; }
+            match ref_number(s, 2) {
+                Some((neg, m, used)) => { if neg { return None; } r.month = m as u32; s = &s[used..]; }
+                None => { let (m, used) = ref_month_name(s)?; r.month = m; s = &s[used..]; }
+            }
+            month_set = true;
+        }
+        Field::Day => {
+            if !(date || dtv) { return None; }
+            let (neg, d, used) = ref_number(s, if dtv { 9 } else { 2 })?;
+            if date && neg { return None; }
+            r.day = d.unsigned_abs() as u32;
+            r.negative = neg;
+            day_set = true;
+            s = &s[used..];
+        }
+        Field::Hour24 | Field::Minute | Field::Second => {
+            if !time { return None; }
+            let v = if !dtv && s.is_empty() { 0 } else { let (neg, v, used) = ref_number(s, 2)?; if neg { return None; } s = &s[used..]; v as u32 };
+            match f { Field::Hour24 => r.hour = v, Field::Minute => r.minute = v, _ => r.sec = v }
+        }
+        Field::Hour12 => {
+            if !(time && !dtv) { return None; }
+            let v = if s.is_empty() { 12 } else { let (neg, v, used) = ref_number(s, 2)?; if neg { return None; } s = &s[used..]; v };
+            if v < 1 || v > 12 { return None; }
+            r.hour = v as u32;
+        }
+        Field::Fraction(p) => {
+            if !T::HAS_FRACTION { return None; }
+            if !s.is_empty() {
+                if s[0] == b'-' { return None; }
+                let max = p.unwrap_or(9) as usize;
+                let mut k = 0;
+                let mut v: u64 = 0;
+                while k < s.len() && k < max && is_digit(s[k]) { v = v * 10 + (s[k] - b'0') as u64; k += 1; }
+                // scaled to microseconds, rounded half-up beyond six digits
+                let mut j = k;
+                while j < 6 { v *= 10; j += 1; }
+                if k == 7 { v = (v + 5) / 10; } else if k == 8 { v = (v + 50) / 100; } else if k == 9 { v = (v + 500) / 1000; }
+                r.usec = v as u32;
+                s = &s[k..];
+            }
+        }
+        Field::AmPm(st) => {
+            if !(time && !dtv) { return None; }
+            if !s.is_empty() {
+                let dotted = *st == AmPmStyle::UpperDot || *st == AmPmStyle::LowerDot;
+                let (am, pm, n) = if dotted { (ci(s, b"a.m."), ci(s, b"p.m."), 4) } else { (ci(s, b"am"), ci(s, b"pm"), 2) };
+                if !(am || pm) { return None; }
+                // meridian applied to the default hour 0: AM keeps 0, PM gives 12
+                if pm { r.hour = 12; }
+                s = &s[n..];
+            }
+        }
+        Field::MonthName(_) => {
+            if !date { return None; }
+            let (m, used) = ref_month_name(s)?;
+            r.month = m;
+            month_set = true;
+            s = &s[used..];
+        }
+        Field::DayName(st) => {
+            if !date { return None; }
+            let abbr = matches!(st, NameStyle::AbbrCapital | NameStyle::AbbrLower | NameStyle::AbbrUpper);
+            let (d, used) = ref_day_name(s, abbr)?;
+            dow = Some(d);
+            s = &s[used..];
+        }
+        Field::DayOfWeek => {
+            if !date { return None; }
+            if s.is_empty() || s[0] < b'1' || s[0] > b'7' { return None; }
+            dow = Some((s[0] - b'0') as u32);
+            s = &s[1..];
+        }
+        Field::DayOfYear => {
+            if !date { return None; }
+            let (neg, d, used) = ref_number(s, 3)?;
+            if neg { return None; }
+            doy = Some(d as u32);
+            s = &s[used..];
+        }
+        Field::WeekOfMonth | Field::WeekOfYear => return None,   // output-only codes
+    }
+    s = skip_ws(s);
+    if !s.is_empty() { return None; }                             // input text left over
+    if date {
+        if !year_set { r.year = cy; }
+        if !month_set { r.month = cm; }
+    }
+    if let Some(d) = doy {
+        let leap = k_leap(r.year);
+        if d == 0 || d > (if leap { 366 } else { 365 }) { return None; }
+        // day-of-year -> (month, day)
+        let mut m = 1u32;
+        while m < 12 && (k_cum(m as i64 + 1) + (if m + 1 > 2 && leap { 1 } else { 0 })) < d as i64 { m += 1; }
+        let dd = d as i64 - k_cum(m as i64) - (if m > 2 && leap { 1 } else { 0 });
+        if month_set && m != r.month { return None; }
+        r.month = m;
+        r.day = dd as u32;
+    }
+    if let Some(w) = dow {
+        if !k_date_ok(r.year, r.month as i64, r.day as i64) { return None; }
+        if k_wd(k_dn(r.year, r.month as i64, r.day as i64)) != w as i64 { return None; }
+    }
+    Some(r)
+}
+
+fn parse_one_check<T: DateTimeFormat>() {
+    let c = crate::kverif::set_any_clock(false);
+    let f = any_field();
+    let bytes: [u8; TXT] = kani::any();
+    let len: usize = kani::any();
+    kani::assume(len <= TXT);
+    let mut i = 0;
+    while i < TXT { kani::assume(bytes[i] < 128); i += 1; }     // ASCII: the parser takes &str
+    let text = core::str::from_utf8(&bytes[..len]).unwrap();
+    let want = ref_parse_one::<T>(&f, &bytes[..len], c[0] as i64, c[1]);
+    let uses_clock_ok = true;
+    let fmt = one_field(f);
+    let got: Result<Probe<T>> = fmt.parse_internal::<&str, Probe<T>, false>(text);
+    match want {
+        None => assert!(got.is_err()),
+        Some(r) => {
+            assert!(got.is_ok());
+            let g = got.unwrap();
+            assert!(g.year as i64 == r.year && g.month == r.month && g.day == r.day);
+            assert!(g.hour == r.hour && g.minute == r.minute && g.sec == r.sec && g.usec == r.usec);
+            assert!(g.negative == r.negative);
+        }
+    }
+}
+
+macro_rules! parse_harness {
+    ($name:ident, $t:ty) => {
+        #[kani::proof]
+        #[kani::unwind(14)]
+        #[kani::stub(crate::util::try_format, stub_try_format)]
+        #[kani::stub(crate::common::date2julian, crate::kverif::date2julian_by_contract)]
+        #[kani::stub(chrono::Local::now, crate::kverif::stub_now)]
+        fn $name() { parse_one_check::<$t>(); }
+    };
+}
+parse_harness!(parse_one_field_date_bounded, Date);
+parse_harness!(parse_one_field_time_bounded, Time);
+parse_harness!(parse_one_field_timestamp_bounded, Timestamp);
+parse_harness!(parse_one_field_interval_ym_bounded, IntervalYM);
+parse_harness!(parse_one_field_interval_dt_bounded, IntervalDT);
